@@ -23,7 +23,8 @@ theorem FI_debt_node (N : Nat) (links : List (Nat × List Tgt)) (hwf : TreeWF N 
     (hwk : ∀ key t, getL links key = [t] → WK lg' (gw ws' key) (getL g.fifo (rkeyOf t)) key
       (if key = srcKey then g.roots.drop g.resp.length
        else if key / 64 = n then writesOf rs1 (key % 64) else writesOf (ss (key / 64)).reqs (key % 64))
-      (heldD D0 ss g.sinks t)) :
+      (heldD D0 ss g.sinks t))
+    (hordk : OrdAt lg' k g.next) :
     FI N links (upd ss n ⟨(ss n).inbox, (flushS rs1).1, cur'⟩)
       (updD D0 (rkeyOf (.node n 0)) (flushT rs1).2)
       { g with nodes := setNode g.nodes n nd', log := lg', writers := ws' } := by
@@ -120,5 +121,6 @@ theorem FI_debt_node (N : Nat) (links : List (Nat × List Tgt)) (hwf : TreeWF N 
       · have : rkeyOf (.node m 0) ≠ rkeyOf (.node n 0) := by simp only [rkeyOf]; omega
         simpa [heldD, heldAt, D', updD, this, D0, upd, e] using hold
   · exact hwq0
+  · exact hordk
 
 end Uniflow.FlowInv
